@@ -30,6 +30,7 @@ CONSTANTS HiCard, LoCard,   \* limb cardinalities
           MaxInst,          \* model: instance indexes 0..MaxInst
           NZ,               \* model: zone indexes 0..NZ-1
           MaxReq,           \* model: requested counts -1..MaxReq
+          MaxPureTaken,     \* model: pure calls are explored for every taken set of at most this many tokens
           NForeign,         \* model: number of members that use the random generator
           CJ                \* model: do the cluster's spread-minimising members run the CanJoin check
 
@@ -324,8 +325,9 @@ PrevHasTokens(g) == PrevPresent(g) /\ ring[PrevOf(g)].toks # {}
 
 (* a pure call: any generator, any requested count, ANY taken set (only from the empty ring: *)
 (* the result does not depend on the ring)                                                   *)
+PureTakenSets == {T \in SUBSET Tok : Cardinality(T) <= MaxPureTaken}
 PureCall == /\ ring = EmptyFcn /\ parts = EmptyFcn
-            /\ \E m \in Members, req \in Reqs, taken \in SUBSET Tok :
+            /\ \E m \in Members, req \in Reqs, taken \in PureTakenSets :
                   /\ (m \in Foreign => SpaceHasAtLeast(Cardinality(taken) + Want(req)))
                   /\ Generate(GenOf(m, FALSE), NoMember, req, taken)
 
